@@ -5,10 +5,12 @@ import PoolModel.Util
 ```
 reset
 addacct k value expiry state bkey optx opidx hint tx ver
-submit n state unfilled units min
+submit n state unfilled units min isBid tier extras
 stage id tx feeOk <orders> <omods> <accts> <amods> <matches>
+delorder n
 updorder n <mods>          updorders <ns> <modss>          updacct k <mods>
 complete | discard | reopen | spend
+acctspend k <expiry|multisig|unknown> tx height
 reconnect <err0|err1|mal|fin:tx|finw:tx> <removeOk>
 obs
 ```
@@ -73,7 +75,7 @@ def acctStr (p : Key × Acct) : String :=
   s!"{p.1}:{a.value},{a.expiry},{a.state},{a.bkey},{a.opTx},{a.opIdx},{a.hint},{a.tx},{a.version}"
 
 def ordStr (p : Key × Ord) : String :=
-  s!"{p.1}:{p.2.state},{p.2.unfilled},{p.2.units},{p.2.minMatch}"
+  s!"{p.1}:{p.2.state},{p.2.unfilled},{p.2.units},{p.2.minMatch},{if p.2.isBid then 1 else 0},{p.2.tier},{p.2.extras}"
 
 def snapOrdStr (p : Key × Ord) : String := s!"{p.1}:{p.2.state},{p.2.unfilled},{p.2.units}"
 
@@ -108,11 +110,19 @@ def obsStr (db : DB) : String :=
   let o := joinWith ";" (obsOrderRange.map fun k =>
     match lookup k db.orders with | some v => ordStr (k, v) | none => s!"{k}!")
   let P := match pendingBatchSnapshot db with | .ok s => snapStr s | .error e => "!" ++ errName e
-  let S := joinOr "|" (db.snaps.map snapStr)
+  let S := match getLocalBatchSnapshots db with
+    | .ok l => joinOr "|" (l.map snapStr)
+    | .error e => "!" ++ errName e
   let G := joinWith "|" (obsBatchRange.map fun i =>
-    match getLocalBatchSnapshot db i with | .ok s => snapStr s | .error _ => s!"{i}!")
+    match getLocalBatchSnapshot db i with
+    | .ok s => snapStr s
+    | .error .noOrder => s!"{i}!noOrder"
+    | .error _ => s!"{i}!")
   let E := joinWith "|" (obsOrderRange.map fun n =>
-    match getOrderEvents db n with | .ok es => s!"{n}:" ++ joinOr ";" (es.map evtStr) | .error _ => s!"{n}!")
+    match getOrderEvents db n with
+    | .ok es => s!"{n}:" ++ joinOr ";" (es.map evtStr)
+    | .error .noOrder => s!"{n}!"
+    | .error _ => s!"{n}!norefs")
   s!"A={A} a={a} O={O} o={o} P={P} S={S} G={G} E={E}"
 
 def callStr : Call → String
@@ -141,6 +151,9 @@ def drvStep (db : DB) (args : List String) : DB × String :=
   match args with
   | ["reset"] => (DB.init, "ok")
   | ["obs"] => (db, obsStr db)
+  -- a crash / abort inside a transaction: the file holds the pre-transaction state (bbolt, trusted); the token is
+  -- the outcome the harness observed (`crash`, or the error/panic that came first)
+  | ["crash"] => (db, "crash")
   | ["complete"] => doOp db .complete
   | ["discard"] => doOp db .discard
   | ["reopen"] => doOp db .reopen
@@ -153,7 +166,10 @@ def drvStep (db : DB) (args : List String) : DB × String :=
     | _ => (db, "bad-op")
   | "submit" :: rest =>
     match rest.mapM String.toNat? with
-    | some [n, s, u, un, m] => doOp db (.submitOrder n { state := s, unfilled := u, units := un, minMatch := m })
+    | some [n, s, u, un, m, b, t, x] =>
+      if b > 1 then (db, "bad-op") else
+      doOp db (.submitOrder n { state := s, unfilled := u, units := un, minMatch := m, isBid := b == 1, tier := t,
+                                extras := x })
     | _ => (db, "bad-op")
   | ["stage", id, tx, fee, os, oms, as, ams, mt] =>
     match id.toNat?, tx.toNat?, bool? fee, keyList? os, modLists? omod? oms, keyList? as, modLists? amod? ams,
@@ -162,6 +178,10 @@ def drvStep (db : DB) (args : List String) : DB × String :=
       doOp db (.stage { batchId := id, batchTx := tx, feeOk := fee, orders := os, orderMods := oms,
                         accounts := as, acctMods := ams, matched := mt })
     | _, _, _, _, _, _, _, _ => (db, "bad-op")
+  | ["delorder", n] =>
+    match n.toNat? with
+    | some n => doOp db (.deleteOrder n)
+    | none => (db, "bad-op")
   | ["updorder", n, ms] =>
     match n.toNat?, modList? omod? ms with
     | some n, some ms => doOp db (.updateOrder n ms)
@@ -174,6 +194,12 @@ def drvStep (db : DB) (args : List String) : DB × String :=
     match k.toNat?, modList? amod? ms with
     | some k, some ms => doOp db (.updateAccount k ms)
     | _, _ => (db, "bad-op")
+  | ["acctspend", k, w, tx, h] =>
+    let w? : Option Witness := if w == "expiry" then some .expiry else if w == "multisig" then some .multiSig
+      else if w == "unknown" then some .unknown else none
+    match k.toNat?, w?, tx.toNat?, h.toNat? with
+    | some k, some w, some tx, some h => doOp db (.accountSpend k w tx h)
+    | _, _, _, _ => (db, "bad-op")
   | ["reconnect", r, rm] =>
     match rpc? r, bool? rm with
     | some r, some rm =>
